@@ -1,9 +1,10 @@
 (* Entry point of the extracted model for the C14 acyclicity predicates (proofs/SnippetAcyclic.v):
-     1 <config> <str d>  -> [b]            acyclic_from cfg d   (the hypothesis of C14_alias_eq_definition)
+     1 <config> <str d>  -> [b]            acyclic_from cfg d
      2 <config>          -> [b]            acyclic_table cfg
      3 <config> <str d>  -> list of str    mentions cfg d       (definitions the text d refers to)
      4 <config> <str k>  -> option str     def_of cfg (Some k)  (the definition a name stands for)
      5 <str k>           -> [b]            key_text k
+     6 <config> <str d>  -> [b]            self_free cfg d      (the hypothesis of C14_alias_eq_definition)
    The configuration is decoded by run.MarkupRun.dec_config (same wire format as the markup model). *)
 From Emmet Require Import lib.Base lib.Wire model.MarkupTokenizer model.MarkupParser model.MarkupConvert
      model.MarkupResolve model.OutStream model.FormatHtml model.FormatIndent model.MarkupExpand run.MarkupRun
@@ -39,6 +40,13 @@ Definition run (w : wire) : wire :=
                end
   | 5 :: w' => match dec_str w' with
                | Some (s, _) => enc_bool (key_text s)
+               | None => wire_bad
+               end
+  | 6 :: w' => match dec_config w' with
+               | Some (x, w2) => match dec_str w2 with
+                                 | Some (s, _) => enc_bool (self_free (xc_m x) s)
+                                 | None => wire_bad
+                                 end
                | None => wire_bad
                end
   | _ => wire_bad
